@@ -658,3 +658,22 @@ MUTATIONS += [
 HARMLESS += [
     dict(id="H-C03-blob-thread-item-binding", prop="C03", file=PKR13, old="                        let (data, id, data_len, ul) = item?;\n", new="                        let item = item?;\n                        let (data, id, data_len, ul) = item;\n"),
 ]
+
+PAR13 = "crates/core/src/archiver/parent.rs"
+MUTATIONS += [
+    # a file is reused as soon as ONE of the parent's chunks is in the index
+    dict(id="C11-reuse-if-any-chunk-indexed", prop="C11", file=PAR13, old="                        if p_node.content.iter().flatten().all(|id| index.has_data(id)) {", new="                        if p_node.content.iter().flatten().any(|id| index.has_data(id)) {"),
+    # the index test is dropped: a parent whose chunks were pruned is reused
+    dict(id="C11-reuse-without-index-test", prop="C11", file=PAR13, old="                        if p_node.content.iter().flatten().all(|id| index.has_data(id)) {", new="                        if p_node.content.is_some() {"),
+    # when chunks are missing the parent's content is taken anyway before the file is re-read
+    dict(id="C11-content-copied-before-test", prop="C11", file=PAR13, old="                    ParentResult::Matched(p_node) => {\n                        if p_node", new="                    ParentResult::Matched(p_node) => {\n                        node.content.clone_from(&p_node.content);\n                        if p_node"),
+]
+HARMLESS += [
+    # the clone is made before the test but assigned only when the test succeeds
+    dict(id="H-C11-reuse-test-bound-first", prop="C11", file=PAR13, old="                        if p_node.content.iter().flatten().all(|id| index.has_data(id)) {", new="                        let all_indexed = p_node.content.iter().flatten().all(|id| index.has_data(id));\n                        if all_indexed {"),
+]
+
+MUTATIONS += [
+    # leaving a directory pops the stack but keeps looking things up in the sub-directory's parent trees
+    dict(id="C11-finish-dir-keeps-subtree", prop="C11", file=PAR13, old="        let tree = self.stack.pop().ok_or(TreeStackEmptyError)?;\n        self.trees = tree;", new="        let _tree = self.stack.pop().ok_or(TreeStackEmptyError)?;"),
+]
